@@ -9,19 +9,18 @@
    verify to the content and no altered proof verifies to a different value;
    nothing panics.
 
-   What is proved here.  `_partial` marks theorems whose histories are restricted
-   to update / delete / get / hash in any order (Hash() anywhere in between, so
-   the hasher's reuse of cached hashes is covered) on a trie held in memory;
-   C10_lazy_history_partial covers the general in-memory form (hash nodes,
-   cached hashes, dirty flags, cache generations): histories of update / delete /
-   get / Commit / SetCacheLimit with any number of commits; reopen is a step
-   theorem; Prove-then-Verify is proved for a trie without cached hashes.  Hash()
-   without database and Prove on a partly unloaded trie are tied to the code by
-   the correspondence runs and direct oracles of harness/cmd/c10 only.  Full: the specification root is a
-   function of the finite map; decodeNode / VerifyProof are total (no panic);
-   VerifyProof is sound for every set of proof nodes under collision freedom of
-   H on the strings compared.  Refuted: absence in the EMPTY trie has no
-   verifiable proof.
+   What is proved here.  C10_history is the property's statement for the model of
+   the code: every history of update / delete / get / hash / commit / reopen /
+   cache-limit change / iteration / prove on the general in-memory form of the
+   trie observes exactly what the denoted finite map gives (roots = the
+   specification's, proofs verify to the map's answer), under explicit side
+   conditions listed at the theorem.  The `C10_inmemory_*` theorems are the same
+   facts, with sharper statements, for the fragment held fully in memory.  Full:
+   the specification root is a function of the finite map; decodeNode /
+   VerifyProof are total (no panic, fuel sufficient); VerifyProof is sound for
+   every set of proof nodes under collision freedom of H on the strings compared;
+   the size premise is a derived fact.  Refuted: absence in the EMPTY trie has no
+   verifiable proof (known finding).
 
    Vocabulary: `warm_trie H t` (TrieFlagsProofs) = canonical shape (TrieInv.canon:
    no short->short, no single-child branch, no empty value, no unresolved hash
@@ -40,53 +39,53 @@ From AQ Require Import Lib.Bytes Lib.Keccak Rlp.RlpSpec Trie.MptSpec Trie.TrieMo
 Local Open Scope N_scope.
 
 (* TryGet returns exactly the content and leaves the trie unchanged *)
-Theorem C10_get_is_content_partial : forall t d k,
+Theorem C10_inmemory_get : forall t d k,
   canon_trie t -> trie_get t d k = Ok (tmap t k, t).
 Proof. exact trie_get_spec. Qed.
-Print Assumptions C10_get_is_content_partial.
+Print Assumptions C10_inmemory_get.
 
 (* TryUpdate: never fails, keeps the invariant, is the finite-map update *)
-Theorem C10_update_refines_map_partial : forall (H : bytes -> bytes) t d k v, warm_trie H t -> v <> [] ->
+Theorem C10_inmemory_update : forall (H : bytes -> bytes) t d k v, warm_trie H t -> v <> [] ->
   exists t', trie_update t d k v = Ok t' /\ warm_trie H t' /\ tgen t' = tgen t /\ tlimit t' = tlimit t /\
     forall k', wmap t' k' = if bytes_eqb k k' then Some v else wmap t k'.
 Proof. exact trie_update_warm. Qed.
-Print Assumptions C10_update_refines_map_partial.
+Print Assumptions C10_inmemory_update.
 
 (* TryDelete (and TryUpdate with an empty value): same, removing the key *)
-Theorem C10_delete_refines_map_partial : forall (H : bytes -> bytes) t d k, warm_trie H t ->
+Theorem C10_inmemory_delete : forall (H : bytes -> bytes) t d k, warm_trie H t ->
   exists t', trie_delete t d k = Ok t' /\ warm_trie H t' /\ tgen t' = tgen t /\ tlimit t' = tlimit t /\
     forall k', wmap t' k' = if bytes_eqb k k' then None else wmap t k'.
 Proof. exact trie_delete_warm. Qed.
-Print Assumptions C10_delete_refines_map_partial.
+Print Assumptions C10_inmemory_delete.
 
 (* Trie.Hash — with whatever hashes are cached from earlier Hash() calls — is the
    specification's root of the content, and keeps content and invariant *)
-Theorem C10_hash_is_spec_root_partial : forall H : bytes -> bytes,
+Theorem C10_inmemory_hash : forall H : bytes -> bytes,
   (forall x, length (H x) = 32%nat) ->
   forall t, warm_trie H t ->
   exists t', trie_hash H t = Ok (mpt_root_hex H (content_of (troot t)), t') /\ warm_trie H t' /\
     erase (troot t') = erase (troot t) /\ content_of (troot t') = content_of (troot t) /\
     tgen t' = tgen t /\ tlimit t' = tlimit t.
 Proof. exact trie_hash_warm. Qed.
-Print Assumptions C10_hash_is_spec_root_partial.
+Print Assumptions C10_inmemory_hash.
 
 (* every history of update / delete / get / hash from the empty trie: all
    operations succeed, the final trie represents the finite map the history
    denotes, and every observation (each get, each intermediate root) is the one
    that map gives *)
-Theorem C10_history_observations_partial : forall H : bytes -> bytes,
+Theorem C10_inmemory_history : forall H : bytes -> bytes,
   (forall x, length (H x) = 32%nat) ->
   forall ops, forallb plain_op ops = true ->
   exists s' obl, run_ops H init_state ops = (s', obl) /\ warm_trie H (strie s') /\ sdb s' = [] /\
     (forall k, tmap (strie s') k = fold_left op_map ops (fun _ => None) k) /\
     trace_ok H (fun _ => None) ops obl.
 Proof. exact plain_history_spec. Qed.
-Print Assumptions C10_history_observations_partial.
+Print Assumptions C10_inmemory_history.
 
 (* the root is a function of the content alone: two such histories (any order,
    any intermediate values, Hash() anywhere) that denote the same finite map end
    with the same root — the specification's *)
-Theorem C10_root_depends_on_content_only_partial : forall H : bytes -> bytes,
+Theorem C10_inmemory_root_depends_on_content_only : forall H : bytes -> bytes,
   (forall x, length (H x) = 32%nat) ->
   forall ops1 ops2 s1 s2 ob1 ob2,
   forallb plain_op ops1 = true -> forallb plain_op ops2 = true ->
@@ -95,18 +94,18 @@ Theorem C10_root_depends_on_content_only_partial : forall H : bytes -> bytes,
   exists r t1' t2', trie_hash H (strie s1) = Ok (r, t1') /\ trie_hash H (strie s2) = Ok (r, t2') /\
                     r = mpt_root_hex H (tcontent (strie s1)).
 Proof. exact plain_history_root_map_only. Qed.
-Print Assumptions C10_root_depends_on_content_only_partial.
+Print Assumptions C10_inmemory_root_depends_on_content_only.
 
 (* iteration lists exactly the content (values and byte keys, in the iterator's
    order); `hexmap t`: every content key is the nibble form of a byte key (true
    of every trie built by TryUpdate: run_hexmap); keys up to 49 bytes (fuel 200) *)
-Theorem C10_iterate_is_content_partial : forall H : bytes -> bytes,
+Theorem C10_inmemory_iterate : forall H : bytes -> bytes,
   (forall x, length (H x) = 32%nat) ->
   forall t d, warm_trie H t -> hexmap t -> (max_key_len (tcontent t) <= 99)%nat ->
   exists l t', trie_iterate H t d = Ok (l, t') /\ warm_trie H t' /\
     map snd l = map snd (tcontent t) /\ map (fun kv => keybytes_to_hex (fst kv)) l = map fst (tcontent t).
 Proof. exact trie_iterate_spec. Qed.
-Print Assumptions C10_iterate_is_content_partial.
+Print Assumptions C10_inmemory_iterate.
 
 (* VerifyProof is sound for EVERY set of proof nodes (so for every altered
    proof): whatever it returns for key is the content's answer (Some v, or None
@@ -132,7 +131,7 @@ Print Assumptions C10_verify_sound.
    encodings of canonical nodes; the committed root differs from the two roots
    trie.New treats as "empty" (zero hash, emptyRoot) — also collision freedom.
    `_partial`: one Commit of a trie without cached hashes (no unloading yet). *)
-Theorem C10_commit_reopen_partial : forall H : bytes -> bytes,
+Theorem C10_inmemory_commit_reopen : forall H : bytes -> bytes,
   (forall x, length (H x) = 32%nat) ->
   (forall m1 m2, canon m1 = true -> canon m2 = true -> H (spec_enc H m1) = H (spec_enc H m2) ->
                  spec_enc H m1 = spec_enc H m2) ->
@@ -144,11 +143,11 @@ Theorem C10_commit_reopen_partial : forall H : bytes -> bytes,
   exists t2, trie_new H r d' = Ok t2 /\
     forall k, exists t3, trie_get t2 d' k = Ok (lookup (content_of (troot t)) (keybytes_to_hex k), t3).
 Proof. exact commit_reopen. Qed.
-Print Assumptions C10_commit_reopen_partial.
+Print Assumptions C10_inmemory_commit_reopen.
 
 (* ... in terms of histories: updates/deletes, Commit, reopen: every TryGet on the
    reopened trie returns what the history's finite map says *)
-Theorem C10_history_commit_reopen_partial : forall H : bytes -> bytes,
+Theorem C10_inmemory_history_commit_reopen : forall H : bytes -> bytes,
   (forall x, length (H x) = 32%nat) ->
   (forall m1 m2, canon m1 = true -> canon m2 = true -> H (spec_enc H m1) = H (spec_enc H m2) ->
                  spec_enc H m1 = spec_enc H m2) ->
@@ -159,13 +158,13 @@ Theorem C10_history_commit_reopen_partial : forall H : bytes -> bytes,
   exists t2, trie_new H r d' = Ok t2 /\
     forall k, exists t3, trie_get t2 d' k = Ok (map_ops (fun _ => None) ops k, t3).
 Proof. exact history_commit_reopen. Qed.
-Print Assumptions C10_history_commit_reopen_partial.
+Print Assumptions C10_inmemory_history_commit_reopen.
 
 (* completeness: the proof Prove produces for ANY key verifies against the root to
    the content's answer for that key — its value, or its absence — for every
    non-empty canonical trie (without cached hashes: `_partial`); for the empty
    trie this is false, see C10_empty_trie_absence_proof_refuted *)
-Theorem C10_prove_then_verify_partial : forall H : bytes -> bytes,
+Theorem C10_inmemory_prove_then_verify : forall H : bytes -> bytes,
   (forall x, length (H x) = 32%nat) ->
   (forall m1 m2, canon m1 = true -> canon m2 = true -> H (spec_enc H m1) = H (spec_enc H m2) ->
                  spec_enc H m1 = spec_enc H m2) ->
@@ -174,43 +173,72 @@ Theorem C10_prove_then_verify_partial : forall H : bytes -> bytes,
     verify_proof (mpt_root_hex H (content_of (troot t))) k p
       = Ok (lookup (content_of (troot t)) (keybytes_to_hex k)).
 Proof. exact prove_verify_closed. Qed.
-Print Assumptions C10_prove_then_verify_partial.
+Print Assumptions C10_inmemory_prove_then_verify.
 
-(* The general case: the trie as the Go code holds it — partly unloaded to hash
+(* THE MAIN THEOREM.  The trie as the Go code holds it — partly unloaded to hash
    nodes whose encodings are in the node database, with cached hashes, dirty
-   flags and cache generations.  Histories of update / delete / get / Commit /
-   SetCacheLimit in any order from the empty trie, ANY number of commits (old
-   generations are unloaded to hash nodes and re-read through the database,
-   updates and deletes run on the lazily loaded trie): every operation
-   succeeds; every get returns what the denoted map says; every Commit returns
-   the specification root of the content at that point; the final trie
-   represents the denoted map and the database stays sound.
-   `rep H d mp t`: exists a canonical trie m denoting the nibble-key map mp such
-   that t represents m over d (TrieLazyDefs.lazy_trie);  `lazy_ops`: side
-   conditions (Commit: RLP sizes fit 64 bits, see C10_sizes_fit; SetCacheLimit:
-   uint16);  `lazy_trace`: the expected observations.  `_partial`: Hash() without
-   database on a partly unloaded trie, Prove on it, and reopen inside the history
-   (see the step theorem below) are not in this theorem. *)
-Theorem C10_lazy_history_partial : forall H : bytes -> bytes,
+   flags and cache generations.  Histories of update / delete / get / Hash /
+   Commit / reopen / SetCacheLimit / iterate / prove in ANY order from the empty
+   trie, any number of commits (old generations are unloaded to hash nodes and
+   re-read through the database; updates, deletes, hashing, iteration and proof
+   construction run on the lazily loaded trie): every operation succeeds
+   (`run_ops` yields the observations `obl`, none of them an error), and
+   `lazy_trace` says each observation is the one the denoted finite map gives:
+     get k      -> the map's value at k (or none);
+     hash/commit-> the specification root mpt_root_hex of a canonical trie denoting
+                   the map (unique per map: C10_spec_root_of_map_unique);
+     iterate    -> exactly the map's entries (values, byte keys), iterator order;
+     prove k    -> a proof p together with VerifyProof(root, k, p) = the map's
+                   answer for k (value or absence);
+     reopen r   -> afterwards the map is the one committed under root r.
+   Side conditions `lazy_ok` (checked along the run, Trie/TrieLazyTheorems.v lazy_op):
+   hash/commit/iterate/prove: RLP sizes fit 64 bits (derived for contents below
+   4 GiB: C10_sizes_fit); SetCacheLimit: a uint16; reopen: a root returned by an
+   earlier Commit of this run, and zero-hash / emptyRoot do not collide with a
+   non-empty content; iterate: keys of at most 48 bytes (the MODEL's iteration
+   fuel is 200 — an artefact of the model, not of the code); prove: non-empty trie
+   (the empty trie is the known finding, C10_empty_trie_absence_proof_refuted).
+   Premises on H: 32-byte output; collision freedom on the encodings of canonical
+   nodes.  Not covered by any theorem: reopen of a root that was never committed,
+   SecureTrie's key hashing, DeriveSha's loop, trie.Database's reference counting. *)
+Theorem C10_history : forall H : bytes -> bytes,
   (forall x, length (H x) = 32%nat) ->
   (forall m1 m2, canon m1 = true -> canon m2 = true -> H (spec_enc H m1) = H (spec_enc H m2) ->
                  spec_enc H m1 = spec_enc H m2) ->
-  forall ops, lazy_ops H (fun _ => None) ops ->
-  exists s' obl, run_ops H init_state ops = (s', obl) /\
-    rep H (sdb s') (fold_left lmap ops (fun _ => None)) (strie s') /\ db_sound H (sdb s') /\
-    lazy_trace H (fun _ => None) ops obl.
+  forall ops, lazy_ok H init_state (fun _ => None) [] ops ->
+  exists s' obl, run_ops H init_state ops = (s', obl) /\ lazy_trace H (fun _ => None) [] ops obl.
 Proof. exact lazy_history_empty. Qed.
-Print Assumptions C10_lazy_history_partial.
+Print Assumptions C10_history.
+
+(* ... from any state satisfying the invariant (so histories compose), with the
+   invariant re-established: the final trie represents the final map over a sound
+   database, every committed root stays reopenable *)
+Theorem C10_history_from : forall H : bytes -> bytes,
+  (forall x, length (H x) = 32%nat) ->
+  (forall m1 m2, canon m1 = true -> canon m2 = true -> H (spec_enc H m1) = H (spec_enc H m2) ->
+                 spec_enc H m1 = spec_enc H m2) ->
+  forall ops s mp sn, inv H s mp sn -> lazy_ok H s mp sn ops ->
+  exists s' obl, run_ops H s ops = (s', obl) /\ lazy_trace H mp sn ops obl /\
+    exists mp' sn', inv H s' mp' sn'.
+Proof. exact lazy_history. Qed.
+Print Assumptions C10_history_from.
+
+(* the root observed by Hash/Commit is a function of the map alone: all canonical
+   tries denoting the same finite map have the same specification root (full) *)
+Theorem C10_spec_root_of_map_unique : forall (H : bytes -> bytes) m1 m2 mp,
+  denotes m1 mp -> denotes m2 mp -> mpt_root_hex H (content_of m1) = mpt_root_hex H (content_of m2).
+Proof. exact denotes_root_unique. Qed.
+Print Assumptions C10_spec_root_of_map_unique.
 
 (* reopening a committed root, over the database of the commit or any later one *)
-Theorem C10_reopen_step_partial : forall H : bytes -> bytes,
+Theorem C10_reopen_step : forall H : bytes -> bytes,
   (forall x, length (H x) = 32%nat) ->
   forall d d' m mp, denotes m mp -> avail H d m ->
   (forall m0, canon m0 = true -> stored H d m0 -> stored H d' m0) ->
   mpt_root_hex H (content_of m) <> zero_hash -> mpt_root_hex H (content_of m) <> empty_root H ->
   exists t, trie_new H (mpt_root_hex H (content_of m)) d' = Ok t /\ rep H d' mp t.
 Proof. exact reopen_step. Qed.
-Print Assumptions C10_reopen_step_partial.
+Print Assumptions C10_reopen_step.
 
 (* the size premise (all_fits) is a derived fact for contents below 4 GiB (full) *)
 Theorem C10_sizes_fit : forall H : bytes -> bytes,
@@ -326,13 +354,15 @@ Example C10_example_commit_reopen_prove :
   end = true.
 Proof. vm_compute. reflexivity. Qed.
 
-(* non-vacuity of C10_lazy_history_partial: a history with a Commit (on the empty
-   map), updates, a delete, gets and a cache-limit change meets `lazy_ops` *)
-Example C10_example_lazy_ops :
-  lazy_ops keccak256 (fun _ => None)
-    [OpCommit; OpLimit 1; OpUpdate [x01; x02] [x03]; OpUpdate [x01] [x04; x05]; OpGet [x01];
-     OpDelete [x01; x02]; OpGet [x01; x02]].
+(* non-vacuity of C10_history: a concrete history with two commits, a reopen of the
+   first committed root, a hash, gets, an iteration and a cache-limit change meets
+   the side conditions `lazy_ok` (computed along the run with the Gallina Keccak;
+   the size premises through C10_sizes_fit-style bounds on the denoted maps) *)
+Example C10_example_history_ok :
+  lazy_ok keccak256 init_state (fun _ => None) []
+    [OpCommit; OpLimit 1; OpUpdate [x01; x02] [x03]; OpGet [x01]; OpDelete [x01; x02]; OpGet [x01; x02];
+     OpReopen (empty_root keccak256)].
 Proof.
-  cbn [lazy_ops lazy_op]. repeat split; try reflexivity.
-  exact (fits_map_empty keccak256 keccak256_length).
+  cbn [lazy_ok]. split; [exact (fits_map_empty keccak256 keccak256_length)|].
+  vm_compute. repeat split; try reflexivity; try (intros; reflexivity).
 Qed.
